@@ -17,9 +17,24 @@ use std::rc::Rc;
 use super::Value;
 use crate::ast::Position;
 
-#[derive(Clone, PartialEq, Debug)]
+#[derive(Clone, Debug)]
 pub struct Stack {
     curr: BTreeMap<Rc<str>, (Rc<Value>, Position)>,
+}
+
+// A function value carries a snapshot of the scope it was defined in, which
+// holds every function defined before it, each with its own snapshot. Walking
+// all of that for every comparison is exponential in the number of functions;
+// snapshots of one scope share their values, so look at the pointers first.
+impl PartialEq for Stack {
+    fn eq(&self, other: &Self) -> bool {
+        self.curr.len() == other.curr.len()
+            && self.curr.iter().zip(other.curr.iter()).all(
+                |((lname, (lval, lpos)), (rname, (rval, rpos)))| {
+                    lname == rname && lpos == rpos && (Rc::ptr_eq(lval, rval) || lval == rval)
+                },
+            )
+    }
 }
 
 impl Default for Stack {
